@@ -1,5 +1,6 @@
 import SkgVerif.Lemmas.CacheMachine
 import SkgVerif.Gen.Tables
+import SkgVerif.Gen.Source
 /-!
 # C06 — changing parameters in place is equivalent to building a fresh variogram
 
@@ -85,5 +86,22 @@ theorem C06_gap_witness_use_nugget :
 example : freshRead (run sourceAct [.read .parameters, .set nLags false, .read .bins,
     .set values false, .set binFunc true, .set estimator false]) .transform = true := by
   decide +kernel
+
+/-- the skeleton of the lazy getters the cache machine transcribes (which cache guards which
+recomputation, which other getters are called, in source order), as it is in the source now -/
+theorem C06_source_getters : Gen.gettersSource =
+    [
+    ("bins", "if self._bins is None ; (self._bins, n) := self.bin_func() ; return self._bins.copy()"),
+    ("lag_groups", "if self._groups is None ; call self._calc_groups() ; return self._groups"),
+    ("pairwise_diffs", "if self._diff is None ; call self.preprocessing() ; return self._diff"),
+    ("bin_count", "if self._bin_count is None ; self._bin_count := self.lag_classes() ; return self._bin_count"),
+    ("preprocessing", "call self._calc_diff(force=force) ; call self._calc_groups(force=force)"),
+    ("_calc_groups", "if self._groups is not None and (not force) ; self._groups := "),
+    ("_calc_diff", "if self._diff is not None and (not force) ; call self._format_values_stack(self.values) ; call self._format_values_stack(self._co_variable) ; self._diff := "),
+    ("lag_classes", "call self.lag_groups()"),
+    ("fitted_model", "if self.cof is None ; call self.fit(force=True) ; return self.fitted_model_function(self._model, self.cof)"),
+    ("transform", "call self.preprocessing() ; if self.cof is None ; call self.fit(force=True) ; return self.fitted_model(x)"),
+    ("fit:head", "if self.cof is None ; else ; call self.describe() ; if force ; self.cof :=  ; self.cov :=  ; call self.preprocessing(force=force)"),
+    ("describe:head", "if self.cof is None ; call self.fit(force=True)")] := by rfl
 
 end Skg
